@@ -17,7 +17,7 @@ INVS = "C10_CacheSoundSeqs C10_CostOk C10_QueueBound"
 def cfg(spec, vs, qlen, chunk, maxinf, fix_s3=None, post=False, invs=INVS, maxseq=1):
     p = os.path.join(vlib.scratch(), "ingest_%s_%d_%d_%d_%s_%d.cfg" % (spec, maxinf, qlen, chunk, "".join(ch for ch in vs if ch.isdigit()), maxseq))
     with open(p, "w") as f:
-        f.write("SPECIFICATION %s\nCONSTANTS\n Actors = {1, 2}\n Vs = %s\n MaxSeq = %d\n QLen = %d\n Chunk = %d\n MaxInflight = %d\n SeenMax = %d\n Keep = 0\n FixS3 = %s\n FixEmptySeen = FALSE\nINVARIANTS %s\n"
+        f.write("SPECIFICATION %s\nCONSTANTS\n Actors = {1, 2}\n Vs = %s\n MaxSeq = %d\n QLen = %d\n Chunk = %d\n MaxInflight = %d\n SeenMax = %d\n Keep = 0\n FixS3 = %s\n ApplyMayFail = FALSE\n FixEmptySeen = FALSE\nINVARIANTS %s\n"
                 % (spec, vs, maxseq, qlen, chunk, maxinf, qlen, "TRUE" if (FIX_S3 if fix_s3 is None else fix_s3) else "FALSE", invs))
         if post:
             f.write("POSTCONDITION TraceAccepted\n")
@@ -153,10 +153,34 @@ def run(tier):
     cov["distinct_nontrivial"] = acc
     cov["exhaustive"] = False
     cov["rule"] = "model: all arrival sequences over 2 actors x 4 changeset shapes, queue length 2-3, batch cost 1-2, ticks and commits at any time; binding: seeded overload runs of the real loop with the write connection held, every decision of the loop checked against the specification"
+    # a changeset whose first apply did not book it (table unknown at that time), re-offered later
+    s15_open = any(k["id"] == "S15" for k in vlib.open_findings(PID))
+    poison = {}
+    for variant in ("overflow", "quiet"):
+        out = os.path.join(vlib.scratch(), "poison.%s.json" % variant)
+        p = vlib.run_vh(["ingest-poison", variant, out], timeout=300)
+        if p.returncode != 0:
+            raise vlib.ToolError("vh ingest-poison failed: %s" % p.stderr[-800:])
+        poison[variant] = json.load(open(out))
+    pv = poison["overflow"]
+    if pv["trims"] == 0:
+        mismatch.append("ingest-poison (overflow): the cache was never trimmed, scenario not set up")
+    elif not pv["held_after_reoffers"]:
+        violations.append(("a changeset whose first apply failed is still suppressed as 'seen' after the cache was trimmed (%d trims) and it was offered five more times: decisions %s" % (pv["trims"], pv["decisions_for_the_changeset"]),
+                           vlib.write_replay(PID, "poison", pv)))
+    pq = poison["quiet"]
+    if not pq["held_after_reoffers"]:
+        if s15_open:
+            vlib.log("[C10] S15 still present: %s" % json.dumps(pq))
+        else:
+            violations.append(("a changeset whose first apply failed is suppressed as 'seen' on every re-offer (cache below its trim threshold): decisions %s" % pq["decisions_for_the_changeset"], vlib.write_replay(PID, "poison-quiet", pq)))
+    elif s15_open:
+        vlib.log("[C10] note: known finding S15 did not show in this run")
+    cov["poison_scenarios"] = poison
     for k in vlib.open_findings(PID):
         known.append("%s %s" % (k["id"], k["what"]))
     vlib.write_evidence(PID, tier, LEVEL, cov, time.time() - t0, violations=len(violations), assumptions=[
-        "a batch that starts eventually commits (pool timeouts / SQLite interrupts are not driven)",
+        "in the recorded overload runs a batch that starts eventually commits (pool timeouts / SQLite interrupts are not driven); a batch that does not book its changesets is covered by the two ingest-poison scenarios only (known finding S15)",
         "the suppression of *empty* changesets by the cache is a recorded finding (S2e) and not judged here",
         "MAX_CONCURRENT = 5 in the code; the exhaustive model uses 2-3"])
     return {"violations": violations, "mismatch": mismatch, "known": known}
